@@ -373,6 +373,11 @@ func (m *Map[K, V]) decodeInto(target any) error {
 			// Look for aliases, and choose the first with a value.
 			atag, _ := field.Tag.Lookup("aliases")
 			for _, alias := range strings.Split(atag, ",") {
+				if alias == "" {
+					// No aliases tag (or an empty entry): strings.Split
+					// yields "", which is not an alias for anything.
+					continue
+				}
 				value, has = tm.Get(alias)
 				if has {
 					key = alias
